@@ -19,6 +19,8 @@ QUIRK_RULES = {"ordering-enum-operands", "parameter-other-enum", "present-of-par
 
 KNOWN_BY_RULE = dict(gt.C13_KNOWN)
 KNOWN_BY_RULE["enum-value-not-integer"] = "typecheck-enum-value-type-unchecked"
+KNOWN_BY_RULE["ok:array-length-with-boolean-subexpression"] = "typecheck-array-size-subexpressions-checked"
+KNOWN_BY_RULE["ok:imported-type-named-flag"] = "typecheck-user-type-named-flag-is-boolean"
 
 
 def crash_key(crash, rule=None):
@@ -107,8 +109,8 @@ def run(ctx):
         base = gt.Base(ctx.rng, depth=ctx.rng.choice([1, 2, 2, 3]))
         c = base.case()
         cases.append(("gen:%d:base" % i, c.text(), "m.emb", None, c, {}))
-        for v in gt.c13_violations(base, ctx.rng):
-            cases.append(("gen:%d:%s" % (i, v.rule), v.text(), "m.emb", None, v, {}))
+        for v in gt.c13_violations(base, ctx.rng) + gt.c13_welltyped_extras(base, ctx.rng):
+            cases.append(("gen:%d:%s" % (i, v.rule), v.text(), "m.emb", v.extra, v, {}))
     # largest inputs first, one per task, so that the tail of the pool is short
     order = sorted(range(len(cases)), key=lambda i: -len(cases[i][1]))
     pool = multiprocessing.Pool(min(fw.NPROC, 16))
@@ -163,13 +165,22 @@ def run(ctx):
                       mutated_line=(case.line if case is not None else None),
                       compiler=full_st, detail=full_detail, replay_cmd="PYTHONPATH=/repo python -c 'see harness/types_x.compile_emb'")
         # --- the property on the implementation ---
-        want_accept = (case is not None and case.rule is None) or exp.get("expect") == "accept"
-        want_reject = (case is not None and case.rule is not None) or exp.get("expect") == "reject"
+        want_accept = (case is not None and case.doc_typed) or exp.get("expect") == "accept"
+        want_reject = (case is not None and not case.doc_typed) or exp.get("expect") == "reject"
+        prop_failed = False
+        # the value type the front end gives a field of each referenced type, against the documented one
+        for tname, mine, impl in an.get("leaf_mismatch", []):
+            key = ("typecheck-user-type-named-flag-is-boolean" if tname.split(":")[-1].split(".")[-1] == "Flag" and impl == "TBool"
+                   else "typecheck-leaf-type:%s-as-%s" % (mine.strip("()").split(" ")[0], impl.strip("()").split(" ")[0]))
+            viol(key, "a field of type %s has value type %s in the front end; the reference gives it %s (%s)" % (tname, impl, mine, label),
+                 dict(replay, type=tname, documented=mine, implementation=impl))
+            prop_failed = True
         if full_st == "crash":
             viol(crash_key(full_detail, rule), "compiler raised %s in %s on %s" % (full_detail["exception"], full_detail["function"], label), replay)
         elif want_accept and full_st != "ok":
             msg = re.sub(r"'[^']*'|\d+", "_", full_detail[0][2].split("\n")[0])[:80] if full_detail else "?"
-            viol("welltyped-module-rejected:%s" % msg, "%s rejected: %s" % (label, full_detail[:2]), replay)
+            viol(KNOWN_BY_RULE.get(rule, "welltyped-module-rejected:%s" % msg), "%s rejected: %s" % (label, full_detail[:2]), replay)
+            prop_failed = True
         elif want_reject and full_st == "ok":
             viol(KNOWN_BY_RULE.get(rule, "typecheck-accepts:%s" % rule), "ill-typed module accepted (rule %s, line %s)" % (rule, case.line if case else "?"), replay)
         elif want_reject and case is not None:
@@ -182,6 +193,14 @@ def run(ctx):
             if an["oom"].startswith("TRANSLATOR"):
                 viol("translator", "IR translator failed on %s: %s" % (label, an["oom"]), dict(replay, correspondence="types_x.ModuleTranslator"), found=False)
             continue
+        if prop_failed and (rule or "").startswith("ok:"):
+            # a well-typed extra the compiler rejects (reported above with the module): the model, which
+            # follows the reference here, is not expected to agree with the compiler on it
+            ctx.count("skipped:known-divergence-on-welltyped-extra")
+            continue
+        if an.get("leaf_mismatch"):
+            ctx.count("skipped:leaf-type-differs-from-reference")
+            continue
         ev = expected_verdict(an)
         nontriv = "XFn" in an["coq"]
         ctx.case(("m", text), nontrivial=nontriv,
@@ -192,7 +211,7 @@ def run(ctx):
             doc_ok = case.doc_typed
             guarded = rule not in QUIRK_RULES
             coq_full.append((an["coq"], "(CExpect %s %s %s)" % (ev, "true" if doc_ok else "false", "true" if guarded else "false"),
-                             dict(label=label, text=text, rule=rule, an=an)))
+                             dict(label=label, text=text, rule=rule, an=an, doc_typed=case.doc_typed)))
         else:
             coq_plain.append((an["coq"], "(CExpectV %s)" % ev, dict(label=label, text=text, rule=None, an=an)))
 
@@ -215,7 +234,8 @@ def run(ctx):
             # a disagreement: the concrete module is already in hand; does the PROPERTY fail on it?
             full_st = an["full"][0]
             rule = obj["rule"]
-            prop_fails = (rule is None and full_st != "ok") or (rule is not None and full_st != "errors")
+            doc_ok = (obj.get("doc_typed", rule is None))
+            prop_fails = (doc_ok and full_st != "ok") or (not doc_ok and full_st != "errors")
             if prop_fails and n_viol_seen:
                 continue   # already reported above with the concrete input
             ctx.violation("typecheck-model-mismatch",
